@@ -15,7 +15,7 @@ PROP = 'C09'
 LEVEL = 'exploration'
 OWN = ('snapshot_state_mismatch', 'snapshot_position_mismatch', 'dump_not_decodable', 'dump_foreign', 'failed_load_acknowledged', 'received_snapshot_corrupt', 'compacted_without_snapshot',
        'lagging_node_not_caught_up', 'log_empty', 'loaded_state_mismatch')
-INVARIANTS = OWN + ('state_mismatch', 'applied_back')
+INVARIANTS = OWN + ('state_mismatch', 'applied_back', 'log_gap')
 for _i in OWN:
     INV_PROP[_i] = PROP
 RULE = ('one case = one seeded execution of a 2-4 voter cluster with compaction always on (thresholds 2-10 entries), an object plus a '
